@@ -347,7 +347,7 @@ Proof.
   destruct (ar_redirect_ok a); cbn [negb]; [|discriminate].
   destruct (nonempty (ar_challenge a) && nonempty (ar_method a) && negb (bs_eqb (ar_method a) m_S256)) eqn:M; [discriminate|].
   destruct (nonempty (ar_challenge a) && negb (can_seal (srv i))); [discriminate|].
-  destruct (nonempty (ar_audience a) && negb (ar_audience_ok a)); [discriminate|].
+  destruct (nonempty (ar_audience a) && negb (cl_allow_aud c && ar_audience_ok a)); [discriminate|].
   destruct ((Z.of_nat (length (ar_nonce a)) <? 6) && nonempty (ar_nonce a)); [discriminate|].
   intro H. inversion H. split; [reflexivity|]. split; [eauto|]. split; [reflexivity|].
   intro NE. apply nonempty_true in NE. rewrite NE in M. cbn [andb] in M.
